@@ -846,6 +846,12 @@ def l24_request_sweep(rng, w):
                     ns = icmp6(135, 0, bytes(4) + w.my6 + opt, s6, d6)
                     frames.append(eth(dm, w.cl_mac, 0x86dd, ipv6(s6, d6, 58, ns, hlim=255)))
             frames.append(eth(dm, w.cl_mac, 0x86dd, ipv6(s6, w.my6, 6, lib.tcp(4000, 80, 1, 0, 2, src=s6, dst=w.my6))))
+        # the IPv4-mapped / IPv4-compatible forms of the handled IPv4 address as IPv6 destination and as solicited target
+        for m6 in (bytes(10) + b'\xff\xff' + w.my4, bytes(12) + w.my4):
+            frames.append(eth(dm, w.cl_mac, 0x86dd, ipv6(w.cl6, m6, 58, icmp6(128, 0, b'abcdefgh', w.cl6, m6))))
+            frames.append(eth(dm, w.cl_mac, 0x86dd, ipv6(w.cl6, m6, 58, icmp6(135, 0, bytes(4) + m6 + b'\x01\x01' + w.cl_mac, w.cl6, m6), hlim=255)))
+            frames.append(eth(dm, w.cl_mac, 0x86dd, ipv6(w.cl6, w.my6, 58, icmp6(135, 0, bytes(4) + m6 + b'\x01\x01' + w.cl_mac, w.cl6, w.my6), hlim=255)))
+            frames.append(eth(dm, w.cl_mac, 0x86dd, ipv6(w.cl6, m6, 6, lib.tcp(4000, 80, 1, 0, 2, src=w.cl6, dst=m6))))
         for s4 in (w.cl4, bytes(4), ip4('169.254.1.1'), ip4('127.0.0.1')):
             frames.append(eth(dm, w.cl_mac, 0x0800, ipv4(s4, w.my4, 1, icmp(8, 0, b'abcdefgh'))))
             frames.append(eth(dm, w.cl_mac, 0x0800, ipv4(s4, w.my4, 6, lib.tcp(4000, 80, 1, 0, 2, src=s4, dst=w.my4))))
